@@ -198,18 +198,25 @@ def cursor_alignment(fn, sym, loops, dom, call, idx):
     """innermost loop around `call` that iterates chunks_exact(N) and advances idx by a
     constant: returns (N, step) or None"""
     base = _strip(idx)
+    off = 0
+    if base[0] == "ovf":
+        base = _strip(base[1])
+    if base[0] == "bin" and base[1] == "Add" and _strip(base[3])[0] == "const":
+        off = _strip(base[3])[1]
+        base = _strip(base[2])
     if base[0] != "local":
         return None
     enclosing = sorted((body for h, body in loops.items() if call.bb in body), key=len)
     for body in enclosing:
         r = _cursor_in_loop(fn, sym, body, base)
         if r is not None:
-            return r
+            return r + (off,)
     return None
 
 
 def _cursor_in_loop(fn, sym, body, base):
     n_chunk = None
+    kind = "coeff"
     for c in fn.calls():
         if c.bb in body and c.method == "next" and c.args:
             e = sym.operand(c.args[0])
@@ -226,11 +233,13 @@ def _cursor_in_loop(fn, sym, body, base):
                 else:
                     break
             e = _strip(e)
-            if e[0] in ("callat", "call") and (e[2] if e[0] == "callat" else e[1]) == "chunks_exact":
+            if e[0] in ("callat", "call") and (e[2] if e[0] == "callat" else e[1]) in (
+                    "chunks_exact", "chunks_exact_mut"):
                 args = e[3] if e[0] == "callat" else e[2]
                 k = _strip(args[1])
                 if k[0] == "const":
                     n_chunk = k[1] if n_chunk is None else min(n_chunk, k[1])
+                    kind = "dst" if (e[2] if e[0] == "callat" else e[1]).endswith("_mut") else "coeff"
     if n_chunk is None:
         return None
     step = None
@@ -245,7 +254,7 @@ def _cursor_in_loop(fn, sym, body, base):
                 step = "varies"
     if step is None:
         return None
-    return (n_chunk, step)
+    return (n_chunk, step, kind)
 
 
 def guard_adequacy(rep, prog, rule, floor_sites=100):
@@ -291,16 +300,19 @@ def guard_adequacy(rep, prog, rule, floor_sites=100):
                             "precondition)")
                     continue
                 cov += 1
-                n_chunk, step = a
-                slack = window_slack(sym, facts, buf, idx)
+                n_chunk, step, kind, off = a
+                slack = window_slack(sym, facts, buf, idx) if kind == "coeff" else 0
+                what = "coefficients" if kind == "coeff" else "destination components"
                 if step != n_chunk:
-                    rep.unk(rule, key, c.at, "index advances by %s per chunk of %s coefficients"
-                            % (step, n_chunk))
-                elif w <= (n_chunk + slack) * es:
-                    rep.ok(rule, key, c.at, "%d bytes read per %d coefficients x %d-byte elements"
-                           "%s" % (w, n_chunk, es, " + %d element(s) of slack after the window"
-                                   % slack if slack else ""))
+                    rep.unk(rule, key, c.at, "index advances by %s per chunk of %s %s"
+                            % (step, n_chunk, what))
+                elif w + off * es <= (n_chunk + slack) * es:
+                    rep.ok(rule, key, c.at, "%d bytes read at offset %d per %d %s x %d-byte "
+                           "elements%s" % (w, off, n_chunk, what, es,
+                                           " + %d element(s) of slack after the window"
+                                           % slack if slack else ""))
                 else:
+                    w = w + off * es
                     rep.bad(rule, key + "|overread", c.at, "%s reads %d bytes per iteration of a "
                             "loop that consumes %d coefficients (= %d elements of %d bytes = %d "
                             "bytes): at the last chunk of a window that ends at the row end it "
